@@ -142,7 +142,7 @@ def _task(arg):
         if not static_checks(cls, ws.path, acc, (idx,)):
             continue
         base = None
-        ex = values.Explorer(ws, cfg["k"], "value", 300, cap=cfg["cap"])
+        ex = values.Explorer(ws, cfg["k"], "value", 32767, cap=cfg["cap"])  # payloads beyond one I/O buffer (8 KiB) included
         seen = set()
         n = 0
         for cost, w, edits in ex:
